@@ -9,6 +9,7 @@
 (*   family "stack":   every sequence of <= 3 operations over a small      *)
 (*                     alphabet (stack discipline, misplaced closures)     *)
 (*   family "closure": lazy operators, all/any, nesting, shadowing, arity  *)
+(*   family "compose": computed strings vs literals / collection members  *)
 (***************************************************************************)
 EXTENDS Expr, ExprStr, TLC, Json
 
@@ -23,7 +24,7 @@ F == Bool(FALSE)
 Ints == {Small(0), Small(1), Small(-1), Small(2), Small(7), IMAX, IMIN, IntV(2, -2), IntV(-2, 1), IntV(1, 0)}
 Values ==
     Ints
-    \cup {Str(""), Str("a"), Str("ab"), Str("b")}
+    \cup {Str(""), Str("a"), Str("ab"), Str("b"), Str("read")}
     \cup {Date(0), Date(1)}
     \cup {Bytes(""), Bytes("01")}
     \cup {T, F, Null}
@@ -87,6 +88,21 @@ StackCases ==
 
 UnaryCases  == {Case(<<Val(v), Un(op)>>, NoEnv) : v \in Values, op \in UnaryOps}
 
+\* ---- compose family: a string COMPUTED during evaluation is the same value as that string written as a
+\* literal, held in a collection, used as a map key or bound by the rule - whatever the string is
+\* (implementations intern strings; "read" is one of the strings every symbol table starts with)
+EqOps == {"Equal", "NotEqual", "HeterogeneousEqual", "HeterogeneousNotEqual"}
+ComposeCases ==
+    {Case(<<Val(Str(x)), Val(Str(y)), Bin("Add"), Val(Str(z)), Bin(op)>>, NoEnv) : x \in Strings, y \in Strings, z \in Strings, op \in EqOps}
+    \cup {Case(<<Val(Str(z)), Val(Str(x)), Val(Str(y)), Bin("Add"), Bin(op)>>, NoEnv) : x \in Strings, y \in Strings, z \in Strings, op \in EqOps}
+    \cup {Case(<<Val(c), Val(Str(x)), Val(Str(y)), Bin("Add"), Bin(op)>>, NoEnv) :
+            x \in Strings, y \in Strings, op \in {"Contains", "Get"},
+            c \in UNION {{Arr(<<Str(z)>>), SetV({Str(z)}), MapV({<<Str(z), Small(1)>>})} : z \in {"ab", "read", "a"}}}
+    \cup {Case(<<Var("v"), Val(Str(x)), Val(Str(y)), Bin("Add"), Bin(op)>>, [n \in {"v"} |-> Str(z)]) :
+            x \in Strings, y \in Strings, z \in Strings, op \in EqOps}
+    \cup {Case(<<Val(Str(x)), Val(Str(y)), Bin("Add"), Val(Str(x2)), Val(Str(y2)), Bin("Add"), Bin(op)>>, NoEnv) :
+            x \in Strings, y \in Strings, x2 \in Strings, y2 \in Strings, op \in {"Equal", "HeterogeneousNotEqual"}}
+
 Init ==
     /\ seed \in IF Family = "binary" THEN BinaryOps ELSE {"-"}
     /\ case_ = Case(<<>>, NoEnv)
@@ -98,6 +114,7 @@ Next ==
          [] Family = "unary"   -> case_' \in UnaryCases
          [] Family = "stack"   -> case_' \in StackCases
          [] Family = "closure" -> case_' \in (LazyCases \cup QuantCases)
+         [] Family = "compose" -> case_' \in ComposeCases
 
 Spec == Init /\ [][Next]_vars
 Ready == seed = "done"
